@@ -392,6 +392,23 @@ fn check_style(m: &StyleM, full: bool, evals: &mut u64) -> Vec<Bad> {
                     }
                 }
             }
+            // a call into a writer that panics (caught), then the same call into a Vec: the second one is unaffected
+            {
+                *evals += 1;
+                let _ = std::panic::catch_unwind(|| {
+                    let mut pw = PanickingWriter;
+                    if which == "Style::write_to" {
+                        s.write_to(&mut pw)
+                    } else {
+                        s.write_reset_to(&mut pw)
+                    }
+                });
+                let mut after: Vec<u8> = Vec::new();
+                let r = if which == "Style::write_to" { s.write_to(&mut after) } else { s.write_reset_to(&mut after) };
+                if r.is_err() || after != want {
+                    bads.push(bad(which, "paths-disagree", "after-panicking-writer", format!("after a call into a writer that panicked, the next call delivered {} ({r:?}) but Display gives {}", show(&after), show(want))));
+                }
+            }
             for room in 0..=want.len() {
                 *evals += 1;
                 let mut sw = ShortWriter { got: Vec::new(), per_call: usize::MAX, room };
@@ -409,6 +426,18 @@ fn check_style(m: &StyleM, full: bool, evals: &mut u64) -> Vec<Bad> {
         }
     }
     bads
+}
+
+/// a writer that unwinds (the panic is caught by the check): whatever the io::Write path keeps between calls must
+/// not be left dirty by it
+struct PanickingWriter;
+impl std::io::Write for PanickingWriter {
+    fn write(&mut self, _buf: &[u8]) -> std::io::Result<usize> {
+        panic!("writer of the harness panics on purpose")
+    }
+    fn flush(&mut self) -> std::io::Result<()> {
+        Ok(())
+    }
 }
 
 /// accepts at most `per_call` bytes per `write` call and `room` bytes in total (then `Ok(0)`, like a full `&mut [u8]`)
